@@ -110,6 +110,7 @@ pub struct Interp<'p> {
     iterating: Vec<u32>,
     pub ambiguous: bool,
     pub nan_seen: bool,
+    nan_compared: std::cell::Cell<bool>,
     pub unprintable_seen: bool,
     pub cov: [u32; 24],
     /// C10 classification: a value held while a re-entrant call of the same function ran
@@ -143,7 +144,7 @@ pub fn run_program(p: &Program, max_steps: u64) -> RunResult {
         out: std::mem::take(&mut it.out),
         stop,
         ambiguous: it.ambiguous,
-        nan_seen: it.nan_seen,
+        nan_seen: it.nan_seen || it.nan_compared.get(),
         unprintable_seen: it.unprintable_seen,
         steps: it.steps,
         cov: it.cov,
@@ -176,6 +177,7 @@ impl<'p> Interp<'p> {
             iterating: Vec::new(),
             ambiguous: false,
             nan_seen: false,
+            nan_compared: std::cell::Cell::new(false),
             unprintable_seen: false,
             cov: [0; 24],
             held_across_reentry: 0,
@@ -316,7 +318,14 @@ impl<'p> Interp<'p> {
         match (a, b) {
             (Val::Nil, Val::Nil) | (Val::Void, Val::Void) => true,
             (Val::Int(x), Val::Int(y)) => x == y,
-            (Val::Float(x), Val::Float(y)) => x == y,
+            (Val::Float(x), Val::Float(y)) => {
+                // NaN inside compared values: whether two references to the same composite value are equal depends on
+                // identity short cuts of the runtime, which the language does not specify
+                if x.is_nan() || y.is_nan() {
+                    self.nan_compared.set(true);
+                }
+                x == y
+            }
             (Val::Int(x), Val::Float(y)) | (Val::Float(y), Val::Int(x)) => {
                 cmp_int_float(*x, *y) == Some(std::cmp::Ordering::Equal)
             }
@@ -358,7 +367,12 @@ impl<'p> Interp<'p> {
         use std::cmp::Ordering::*;
         match (a, b) {
             (Val::Int(x), Val::Int(y)) => Ok(x < y),
-            (Val::Float(x), Val::Float(y)) => Ok(x < y),
+            (Val::Float(x), Val::Float(y)) => {
+                if x.is_nan() || y.is_nan() {
+                    self.nan_compared.set(true);
+                }
+                Ok(x < y)
+            }
             (Val::Int(x), Val::Float(y)) => Ok(cmp_int_float(*x, *y) == Some(Less)),
             (Val::Float(x), Val::Int(y)) => Ok(cmp_int_float(*y, *x) == Some(Greater)),
             (Val::Str(x), Val::Str(y)) => Ok(x.as_bytes() < y.as_bytes()),
